@@ -1,8 +1,7 @@
 /- Running the executable models of C18 through label lists: used by the witness theorems and the non-vacuity examples. -/
 import YaclibModel.Proofs.FiberSyncProgress
-import YaclibModel.Proofs.FiberSyncRecFixed
+import YaclibModel.Proofs.FiberSyncRec
 import YaclibModel.Proofs.FiberSyncSharedInv
-import YaclibModel.Proofs.FiberSyncSharedFixedInv
 import YaclibModel.Proofs.FiberSyncThread
 
 namespace Yaclib.FiberSync
@@ -12,7 +11,7 @@ def run (s : State) : List Label → Option State
   | [] => some s
   | l :: ls => match next s l with | some s' => run s' ls | none => none
 
-theorem reach_run {k fx n s ls s'} (h : Reachable k fx n s) (hr : run s ls = some s') : Reachable k fx n s' := by
+theorem reach_run {k n s ls s'} (h : Reachable k n s) (hr : run s ls = some s') : Reachable k n s' := by
   induction ls generalizing s with
   | nil => simp [run] at hr; subst hr; exact h
   | cons l ls ih =>
@@ -27,7 +26,7 @@ def run (s : State) : List Label → Option State
   | [] => some s
   | l :: ls => match next s l with | some s' => run s' ls | none => none
 
-theorem reach_run {k p lp n s ls s'} (h : Reachable k p lp n s) (hr : run s ls = some s') : Reachable k p lp n s' := by
+theorem reach_run {k n s ls s'} (h : Reachable k n s) (hr : run s ls = some s') : Reachable k n s' := by
   induction ls generalizing s with
   | nil => simp [run] at hr; subst hr; exact h
   | cons l ls ih =>
@@ -42,7 +41,7 @@ def run (s : State) : List Label → Option State
   | [] => some s
   | l :: ls => match next s l with | some s' => run s' ls | none => none
 
-theorem reach_run {k fx n s ls s'} (h : Reachable k fx n s) (hr : run s ls = some s') : Reachable k fx n s' := by
+theorem reach_run {k n s ls s'} (h : Reachable k n s) (hr : run s ls = some s') : Reachable k n s' := by
   induction ls generalizing s with
   | nil => simp [run] at hr; subst hr; exact h
   | cons l ls ih =>
@@ -57,7 +56,7 @@ def run (s : State) : List Label → Option State
   | [] => some s
   | l :: ls => match next s l with | some s' => run s' ls | none => none
 
-theorem reach_run {fx n s ls s'} (h : Reachable fx n s) (hr : run s ls = some s') : Reachable fx n s' := by
+theorem reach_run {n s ls s'} (h : Reachable n s) (hr : run s ls = some s') : Reachable n s' := by
   induction ls generalizing s with
   | nil => simp [run] at hr; subst hr; exact h
   | cons l ls ih =>
